@@ -245,6 +245,24 @@ class BuiltinMixin:
         st.assume(qforall([j], z3.Implies(z3.And(j >= 0, j < it.n), res[j] == it.elem(j)), patterns=[res[j]]))
         return res
 
+    def _quant(self, n, st, is_all):
+        def f(s, p, k):
+            def g(s2, it):
+                j = z3.Int('qa!j')
+                body = self.truth(s2, it.elem(j))
+                rng = z3.And(j >= 0, j < it.n)
+                if is_all:
+                    return ok(s2, mk_bool(qforall([j], z3.Implies(rng, body))))
+                return ok(s2, mk_bool(z3.Exists([j], z3.And(rng, body))))
+            return self.iter_source(s, p[0], g)
+        return self._args(n, st, f)
+
+    def b_all(self, n, st):
+        return self._quant(n, st, True)
+
+    def b_any(self, n, st):
+        return self._quant(n, st, False)
+
     def b_list(self, n, st):
         return self._args(n, st, lambda s, p, k: self.b_list_v(s, p, k))
 
